@@ -146,7 +146,31 @@ pub fn exec(case: &Value) -> Value {
     json!({ "outs": outs })
 }
 
+/// template documents loaded call after call, going on after a rejected one: what is defined afterwards — hence
+/// the rule text — must not depend on the order a document's names are visited in
+fn gen_template_loads(tier: &str, seed: u64, out: &mut dyn FnMut(Value)) {
+    let mut rng = Rng::new(seed ^ 0x7e11);
+    let n = if tier == "thorough" { 20000 } else { 2000 };
+    for _ in 0..n {
+        let ncalls = 2 + rng.below(3);
+        let mut calls = vec![];
+        for _ in 0..ncalls {
+            let k = 1 + rng.below(4);
+            let mut names: Vec<&str> = vec!["a", "b", "c", "ab", "d"];
+            let mut doc = vec![];
+            for _ in 0..k {
+                let i = rng.below(names.len());
+                doc.push(json!([names.remove(i), *rng.pick(&["X", "Y", "{{a}}", ""])]));
+            }
+            calls.push(json!([doc]));
+        }
+        let rule = json!({"name": "r", "matches": [["$m", ".x == '{{a}}-{{b}}-{{c}}-{{ab}}-{{d}}'"]], "condition": "$m"});
+        out(json!({"op": "tpl_load", "calls": calls, "rule": rule, "instances": 16, "tag": "template loads continuing past a rejected document", "nt": true}));
+    }
+}
+
 pub fn gen(tier: &str, seed: u64, out: &mut dyn FnMut(Value)) {
+    gen_template_loads(tier, seed, out);
     let mut rng = Rng::new(seed);
     let thorough = tier == "thorough";
     let (inst, threads, procs) = if thorough { (32, 4, 2) } else { (8, 2, 0) };
